@@ -291,6 +291,32 @@ fn main() {
             }}}
             repo.remove();
         }
+        // every work-tree state of the git model (modified, staged, untracked, ignored, renamed, mode change, gitlink moved, submodule states,
+        // files named like revisions, stale index, unmerged paths left by a conflict ...) one commit ahead of the tag: git talks about some of these
+        // states on its own stdout / stderr; zerv's stdout stays exactly one well-formed line
+        let sw = WorkTree::ALL.par_iter().enumerate().map(|(i, &wt)| {
+            let mut st = Stats::default();
+            let mut repo = Repo::create(&root, &format!("wt{i}"), &shape, &gitx::dates(4, DateMode::Increasing));
+            repo.set_tags(&[Tag { name: "v1.2.3".into(), target: 2, annotated: i % 2 == 0 }]);
+            repo.set_head(&Head::Branch("main".into()));
+            repo.set_worktree(wt, "f0");
+            let dir = repo.dir.to_string_lossy().to_string();
+            for sub in ["version", "flow"] { for fmt in ["semver", "pep440"] {
+                let args: Vec<String> = [sub, "-C", &dir, "--output-format", fmt].iter().map(|s| s.to_string()).collect();
+                let mut env = gitx::git_env(); for k in ["LD_PRELOAD", "ZERV_VERIF_NOW"] { if let Ok(v) = std::env::var(k) { env.push((k.into(), v)); } }
+                let envr: Vec<(&str, &str)> = env.iter().map(|(k, v)| (k.as_str(), v.as_str())).collect();
+                let o = zv::run_bin(&args, None, &envr, None);
+                st.inc("process_conformance_cases"); st.inc("git_source_runs"); st.inc("git_worktree_state_runs");
+                let out = o.stdout_str();
+                let key = format!("[work tree {wt:?}] {}", args.join(" ").replace(&dir, "<repo>"));
+                if o.status != 0 { ctx.violation("git_source_failed", key, json!({"kind":"git","worktree":format!("{wt:?}")}), truncate(&o.stderr_str(), 200)); continue; }
+                if out.matches('\n').count() != 1 || !out.ends_with('\n') { ctx.violation("stdout_not_exactly_one_line", key, json!({"kind":"git","worktree":format!("{wt:?}")}), format!("stdout {:?}", truncate(&out, 200))); continue; }
+                if let Some(why) = malformed(fmt, out.trim_end_matches('\n')) { ctx.violation(&format!("{fmt}_malformed"), key.clone(), json!({"kind":"git","worktree":format!("{wt:?}")}), format!("emitted {out:?}: {why}")); }
+            }}
+            repo.remove();
+            st
+        }).reduce(Stats::default, Stats::merge);
+        s5 = s5.merge(sw);
         let _ = std::fs::remove_dir_all(&root);
     }
     // binary slice: exactly one line on stdout
